@@ -23,7 +23,7 @@ From Coq Require Import ZArith List Bool PeanoNat.
 From FT Require Import Model.Base Model.Obs Model.C08Split Model.C10Model Model.C10Check
                        Proofs.C10ModelP Proofs.C10OpsP Proofs.C10CheckP.
 Import ListNotations.
-Local Open Scope nat_scope.
+Local Open Scope N_scope.
 
 (* copy.deepcopy: the copy has the same structure and shares no object with the original *)
 Theorem C10_deepcopy : forall t nx c n',
@@ -73,8 +73,8 @@ Proof.
 Qed.
 Print Assumptions C10_independent.
 
-(* read-only family: getPayload (which synthesises defaults with addtorank=False), one pass of
-   a | b / a ^ b, and == (which are built on _createDefault — with the S16 fix called with
+(* read-only family: getPayload and iterUncompressed (which synthesise defaults with
+   addtorank=False), one pass of a | b / a ^ b, and == (which are built on _createDefault — with the S16 fix called with
    addtorank=False) leave the tree and the rank lists of both tensors exactly as they were, for
    every sequence of observers and any fuel; RExternal observers are the identity by
    construction (see the header) *)
@@ -82,7 +82,8 @@ Print Assumptions C10_independent.
    non-reference iteration, co-iteration, equality, emptiness and counting queries, shape
    queries, printing/formatting, YAML dumping, footprint queries, image rendering — returns the
    state unchanged, and rendering twice gives identical images.
-   PROVED: the three observers whose source can write (they instantiate defaults).  MISSING:
+   PROVED: the four observers whose source can write (getPayload, | / ^ pass, ==,
+   iterUncompressed: they instantiate defaults).  MISSING:
    iteration, &, -, isEmpty, countValues, shape queries are not state-threading model functions
    (RExternal), printing/YAML/footprints/rendering are outside the model; all of those are
    covered by the differential observation only. *)
